@@ -193,7 +193,12 @@ def c18_2(ctx):
                         kv = bound.get(key.id)
                         if isinstance(kv, ast.Constant) and isinstance(kv.value, str):
                             others = tuple(norm(v_) for p_, v_ in sorted(bound.items()) if p_ != key.id and p_ != holder.params()[0])
-                            keys.setdefault(kv.value, set()).add(("%s%s" % (holder.name, list(others)), "%s:%d" % (m2.relpath, c.lineno)))
+                            ident = "%s%s" % (holder.name, list(others))
+                            if isinstance(fn, ast.Name) and fn.id in bound:
+                                # the decoder itself is handed through (a plain wrapper of .cache): it is named as at a direct call
+                                a_ = bound[fn.id]
+                                ident = norm(a_) if not isinstance(a_, ast.Lambda) else "lambda@%s" % m2.name
+                            keys.setdefault(kv.value, set()).add((ident, "%s:%d" % (m2.relpath, c.lineno)))
                             found += 1
             param_keyed += 1
             if found:
